@@ -15,10 +15,11 @@ import (
 // ---------------------------------------------------------------- C06: Fork, Split and Join under controlled schedules
 
 type pipeCase struct {
-	Topology string `json:"topology"` // Fork Split SplitJoin
-	Length   int    `json:"length"`
-	FanOut   int    `json:"fan_out"`
-	Cap      uint   `json:"cap"`
+	Topology  string `json:"topology"` // Fork Split SplitJoin
+	Length    int    `json:"length"`
+	FanOut    int    `json:"fan_out"`
+	Cap       uint   `json:"cap"`
+	FeedFirst bool   `json:"feed_first,omitempty"` // the whole stream is added and the input closed before the pipeline is built
 }
 
 // counter is the caller's wait group.  Under the cooperative scheduler one goroutine runs at a time.
@@ -45,8 +46,11 @@ func (c *counter) Wait() {}
 
 func genPipe(maxLen int) func(core.Source) pipeCase {
 	return func(s core.Source) pipeCase {
-		return pipeCase{Topology: core.Pick(s, []string{"Fork", "Split", "SplitJoin"}, "topology"), Length: s.Choose(maxLen+1, "length"),
+		c := pipeCase{Topology: core.Pick(s, []string{"Fork", "Split", "SplitJoin"}, "topology"), Length: s.Choose(maxLen+1, "length"),
 			FanOut: 2 + s.Choose(2, "fanout"), Cap: uint(1 + s.Choose(2, "cap"))}
+		// a short stream fits into the input queue: it may be complete and closed before Fork/Split/Join is called
+		c.FeedFirst = uint(c.Length) <= c.Cap && s.Choose(3, "feed-first") == 0
+		return c
 	}
 }
 
@@ -68,6 +72,12 @@ func execPipe(c pipeCase, src core.Source) (res core.Result) {
 	defer uninstall()
 	registered := -1
 	s.Go("main", func() {
+		if c.FeedFirst {
+			for _, v := range values {
+				input.AddValue(v)
+			}
+			input.CloseQueue()
+		}
 		switch c.Topology {
 		case "Fork":
 			outputs = Q.Fork(group, input, uint(c.FanOut)).AsArray()
@@ -80,12 +90,14 @@ func execPipe(c pipeCase, src core.Source) (res core.Result) {
 		// the helpers must be registered with the caller's wait group before the function returns:
 		// otherwise a Wait() right after the call can return before a helper has even started
 		registered = group.n
-		s.Go("feeder", func() {
-			for _, v := range values {
-				input.AddValue(v)
-			}
-			input.CloseQueue()
-		})
+		if !c.FeedFirst {
+			s.Go("feeder", func() {
+				for _, v := range values {
+					input.AddValue(v)
+				}
+				input.CloseQueue()
+			})
+		}
 		for i, out := range outputs {
 			i, out := i, out
 			s.Go(fmt.Sprintf("reader%d", i), func() {
@@ -167,6 +179,9 @@ func execPipe(c pipeCase, src core.Source) (res core.Result) {
 	res.NonTrivial = true
 	res.Counts = map[string]int{"steps": r.Steps, "schedules": 1}
 	res.Classes = append(res.Classes, "topology-"+c.Topology, fmt.Sprintf("length-%d", c.Length))
+	if c.FeedFirst {
+		res.Classes = append(res.Classes, "input-closed-before-the-pipeline-is-built")
+	}
 	if r.AnyBlocked {
 		res.Classes = append(res.Classes, "some-call-blocked")
 	}
@@ -178,7 +193,7 @@ func TestC06(t *testing.T) {
 	defer r.End()
 	// every schedule of the smallest pipelines, one bounded enumeration per configuration (the schedule
 	// space explodes quickly: the bound keeps the tier's budget, exhaustive=false is reported when it is hit)
-	for _, cfg := range []pipeCase{{"Fork", 0, 2, 1}, {"Split", 0, 2, 1}, {"Split", 1, 2, 1}, {"Fork", 1, 2, 1}, {"Split", 1, 3, 1}, {"SplitJoin", 0, 2, 1}, {"SplitJoin", 1, 2, 1}} {
+	for _, cfg := range []pipeCase{{"Fork", 0, 2, 1, false}, {"Split", 0, 2, 1, false}, {"Split", 1, 2, 1, false}, {"Fork", 1, 2, 1, false}, {"Split", 1, 3, 1, false}, {"SplitJoin", 0, 2, 1, false}, {"SplitJoin", 1, 2, 1, false}} {
 		cfg := cfg
 		name := fmt.Sprintf("all-schedules-%s-len%d-fan%d", cfg.Topology, cfg.Length, cfg.FanOut)
 		core.DFS(r, core.Check[pipeCase]{Name: name, Bounded: true, Gen: func(core.Source) pipeCase { return cfg }, Exec: execPipe}, r.N(2500, 100000))
